@@ -33,6 +33,7 @@ type NetOp struct {
 	Other   string `json:"other,omitempty"`
 	Specs   []NetSpec `json:"specs,omitempty"` // fetch / push: explicit refspecs
 	Mirror  bool      `json:"mirror,omitempty"` // push --mirror
+	Form    string    `json:"form,omitempty"`   // merge: how BRANCH is spelled: "", heads, refs, short (last path segment), peel (B^), tilde0 (B~0)
 }
 
 type NetSpec struct {
@@ -41,6 +42,7 @@ type NetSpec struct {
 	Plus   bool   `json:"plus,omitempty"`
 	Delete bool   `json:"delete,omitempty"` // push: :refs/heads/<branch>
 	Tag    string `json:"tag,omitempty"`    // push: refs/tags/<tag>:refs/tags/<tag>
+	ToTag  string `json:"to_tag,omitempty"` // fetch: refs/heads/<branch>:refs/tags/<to_tag> (a branch of the remote kept as a local tag)
 }
 
 type NetPlan struct {
@@ -54,7 +56,9 @@ type NetPlan struct {
 	Faults   []NetFault  `json:"faults,omitempty"`
 }
 
-var netBranches = []string{"main", "dev", "rel"}
+var netForms = []string{"", "", "", "heads", "refs", "short", "peel", "tilde0"}
+
+var netBranches = []string{"main", "dev", "rel", "team/qa"}
 
 func genNetPlan(r *Rand, tier string, focus string, faults bool) NetPlan {
 	p := NetPlan{}
@@ -83,6 +87,20 @@ func genNetPlan(r *Rand, tier string, focus string, faults bool) NetPlan {
 	}
 	p.Ops = append(p.Ops, NetOp{Node: "L", Op: "fetch"})
 	for i := 0; i < n; i++ {
+		if focus == "C10" && r.Chance(0.2) {
+			// a true fast-forward: L's branch is brought level with the remote, the remote
+			// moves on, L fetches and merges the remote-tracking ref, spelling BRANCH in any form
+			b := Pick(r, netBranches)
+			p.Ops = append(p.Ops, NetOp{Node: "R", Op: "commit", Branch: b, Variant: r.Intn(6)},
+				NetOp{Node: "L", Op: "pull", Branch: b, FF: "ff"},
+				NetOp{Node: "R", Op: "commit", Branch: b, Variant: r.Intn(6)})
+			if r.Chance(0.4) {
+				p.Ops = append(p.Ops, NetOp{Node: "R", Op: "commit", Branch: b, Variant: r.Intn(6)})
+			}
+			p.Ops = append(p.Ops, NetOp{Node: "L", Op: "fetch"},
+				NetOp{Node: "L", Op: "merge", Branch: b, Other: "origin/" + b, FF: Pick(r, []string{"", "ff", "ff-only"}), Form: Pick(r, netForms)})
+			continue
+		}
 		if focus == "C10" && r.Chance(0.5) {
 			// diverge a branch on both sides, then try to move it without / with force
 			b := Pick(r, netBranches)
@@ -101,7 +119,7 @@ func genNetPlan(r *Rand, tier string, focus string, faults bool) NetPlan {
 				p.Ops = append(p.Ops, NetOp{Node: "L", Op: "pull", Branch: b, FF: Pick(r, []string{"", "ff-only", "no-ff"})})
 			case 2:
 				p.Ops = append(p.Ops, NetOp{Node: "L", Op: "fetch", Force: r.Chance(0.2), Specs: genSpecs(r)})
-				p.Ops = append(p.Ops, NetOp{Node: "L", Op: "merge", Branch: b, Other: "origin/" + b, FF: Pick(r, []string{"", "ff-only", "no-ff"})})
+				p.Ops = append(p.Ops, NetOp{Node: "L", Op: "merge", Branch: b, Other: "origin/" + b, FF: Pick(r, []string{"", "ff-only", "no-ff"}), Form: Pick(r, netForms)})
 			default:
 				p.Ops = append(p.Ops, NetOp{Node: "L", Op: "fetch", Force: r.Chance(0.3)})
 				p.Ops = append(p.Ops, NetOp{Node: "L", Op: "push", Branch: b})
@@ -140,6 +158,10 @@ func genNetPlan(r *Rand, tier string, focus string, faults bool) NetPlan {
 			if r.Chance(0.4) {
 				op.Specs = genSpecs(r)
 			}
+			if focus == "C09" && r.Chance(0.25) {
+				// what an earlier, interrupted transfer of the same objects leaves behind
+				p.Ops = append(p.Ops, NetOp{Node: node, Op: "leftover", Variant: r.Range(1, 7)})
+			}
 		case x < 80:
 			op = NetOp{Node: node, Op: "push", Branch: b, Force: r.Chance(0.15), Plus: r.Chance(0.1)}
 			switch r.Intn(6) {
@@ -158,7 +180,7 @@ func genNetPlan(r *Rand, tier string, focus string, faults bool) NetPlan {
 		case x < 92:
 			op = NetOp{Node: node, Op: "pull", Branch: b, FF: Pick(r, []string{"", "ff", "no-ff", "ff-only"}), Depth: Pick(r, []int{0, 0, 1})}
 		default:
-			op = NetOp{Node: node, Op: "merge", Branch: b, Other: "origin/" + Pick(r, netBranches), FF: Pick(r, []string{"", "no-ff", "ff-only"})}
+			op = NetOp{Node: node, Op: "merge", Branch: b, Other: "origin/" + Pick(r, netBranches), FF: Pick(r, []string{"", "no-ff", "ff-only"}), Form: Pick(r, netForms)}
 		}
 		op.Skew = skew
 		p.Ops = append(p.Ops, op)
@@ -181,6 +203,9 @@ func genSpecs(r *Rand) []NetSpec {
 	}
 	if r.Chance(0.5) {
 		sp = append(sp, NetSpec{Tags: true, Plus: r.Chance(0.2)})
+	}
+	if r.Chance(0.25) {
+		sp = append(sp, NetSpec{Branch: Pick(r, netBranches), ToTag: Pick(r, []string{"v1", "v2"}), Plus: r.Chance(0.2)})
 	}
 	if len(sp) == 0 {
 		sp = append(sp, NetSpec{Branch: "main"})
@@ -337,7 +362,7 @@ func execNet(t *testing.T, raw json.RawMessage, res *Result, focus string) {
 		res.Invalid("plan: %v", err)
 		return
 	}
-	if p.Base.N < 1 || p.Base.N > 2000 || p.Base.NCols < 2 || p.Base.NCols > 6 || len(p.Ops) > 60 || len(p.Variants) > 12 || len(p.Faults) > 16 || len(p.Cuts) > 64 {
+	if p.Base.N < 1 || p.Base.N > 2000 || p.Base.NCols < 2 || p.Base.NCols > 6 || len(p.Ops) > 120 || len(p.Variants) > 12 || len(p.Faults) > 16 || len(p.Cuts) > 64 {
 		res.Invalid("plan out of range")
 		return
 	}
@@ -482,6 +507,54 @@ func execNet(t *testing.T, raw json.RawMessage, res *Result, focus string) {
 				return
 			}
 			args = []string{"commit", op.Branch, f, fmt.Sprintf("c%d on %s", i, op.Node), "-p", pkArg, "-n", "1"}
+		case "leftover":
+			// state of a client whose earlier transfer died part-way: derived objects and
+			// blocks of tables it does not have yet (the receiver stores the table object last)
+			if op.Node == "R" || op.Variant < 0 || op.Variant > 7 {
+				res.Invalid("leftover")
+				return
+			}
+			rs := R.Objs.Snapshot()
+			planted := 0
+			for k, tv := range rs {
+				if !strings.HasPrefix(k, "tbl/") {
+					continue
+				}
+				sum := k[4:]
+				if _, ok := n.Objs.Raw(k); ok {
+					continue
+				}
+				if op.Variant&1 != 0 {
+					for _, pfx := range []string{"tblidx/", "tblsum/"} {
+						if v, ok := rs[pfx+sum]; ok {
+							n.Objs.RawSet(pfx+sum, v)
+							planted++
+						}
+					}
+				}
+				_, tbl, err := objects.ReadTableFrom(bytes.NewReader(tv))
+				if err != nil {
+					continue
+				}
+				for bi := range tbl.Blocks {
+					if op.Variant&2 != 0 && bi%2 == 0 {
+						if v, ok := rs["blk/"+string(tbl.Blocks[bi])]; ok {
+							n.Objs.RawSet("blk/"+string(tbl.Blocks[bi]), v)
+							planted++
+						}
+					}
+					if op.Variant&4 != 0 && bi < len(tbl.BlockIndices) {
+						if v, ok := rs["blkidx/"+string(tbl.BlockIndices[bi])]; ok {
+							n.Objs.RawSet("blkidx/"+string(tbl.BlockIndices[bi]), v)
+							planted++
+						}
+					}
+				}
+			}
+			if planted > 0 {
+				res.probe("leftover_of_interrupted_transfer", 1)
+			}
+			continue
 		case "rtag":
 			if op.Node != "R" {
 				res.Invalid("rtag on client")
@@ -516,6 +589,13 @@ func execNet(t *testing.T, raw json.RawMessage, res *Result, focus string) {
 						return
 					}
 					spec = fmt.Sprintf("refs/heads/%s:refs/remotes/origin/%s", sp.Branch, sp.Branch)
+					if sp.ToTag != "" {
+						if sp.ToTag != "v1" && sp.ToTag != "v2" {
+							res.Invalid("to_tag")
+							return
+						}
+						spec = fmt.Sprintf("refs/heads/%s:refs/tags/%s", sp.Branch, sp.ToTag)
+					}
 				}
 				if sp.Plus {
 					spec = "+" + spec
@@ -612,7 +692,28 @@ func execNet(t *testing.T, raw json.RawMessage, res *Result, focus string) {
 			if _, ok := refsBefore["remotes/"+op.Other]; !ok {
 				continue
 			}
-			args = []string{"merge", op.Branch, op.Other, "-n", "1"}
+			spelled := op.Branch
+			switch op.Form {
+			case "":
+			case "heads":
+				spelled = "heads/" + op.Branch
+			case "refs":
+				spelled = "refs/heads/" + op.Branch
+			case "short":
+				spelled = op.Branch[strings.LastIndex(op.Branch, "/")+1:]
+				if _, clash := refsBefore["heads/"+spelled]; clash && spelled != op.Branch {
+					spelled = op.Branch
+				}
+			case "peel":
+				spelled = op.Branch + "^"
+				res.probe("merge_into_peeled_name", 1)
+			case "tilde0":
+				spelled = op.Branch + "~0"
+			default:
+				res.Invalid("form")
+				return
+			}
+			args = []string{"merge", spelled, op.Other, "-n", "1"}
 			if op.FF != "" {
 				args = append(args, "--"+op.FF)
 			}
@@ -665,8 +766,11 @@ func execNet(t *testing.T, raw json.RawMessage, res *Result, focus string) {
 					// explicit refspecs: only a '+' on the matching one forces
 					fetchConfForce = false
 					for _, sp := range op.Specs {
-						if sp.Plus && !sp.Tags && tr.Name == "remotes/origin/"+sp.Branch {
+						if sp.Plus && !sp.Tags && sp.ToTag == "" && tr.Name == "remotes/origin/"+sp.Branch {
 							fetchConfForce = true
+						}
+						if sp.Plus && sp.ToTag != "" && tr.Name == "tags/"+sp.ToTag {
+							tagForce = true
 						}
 						if sp.Plus && sp.Tags && isTag {
 							tagForce = true
